@@ -20,7 +20,7 @@ chk("C01","model_checking",
     "Bounded: histories longer than the depth, or values outside the alphabets, are not covered. Decoder = the library's own reader (C02 adds an independent parser). Trusted: harness reference model (a Vec per track).",
     "exhaustive enumeration of operation histories (depth-bounded) on the real muxer+reader against a reference model","§3 C01")
 
-E3NOTE="Bounded: inputs within <=1 (quick) / <=2 (thorough, selected baselines) field substitutions of the baselines, values from a boundary menu, plus two structurally defined multi-field sets on every baseline (overrun chains: all box sizes on every suffix of every ancestor path raised together; extreme pairs: every 64-bit number x every 32-bit field at the top of their range); fields are the reads the parser itself performs. No byte-level havoc (that would be sampling). Trusted: harness streams/allocator, the watchdog (10 s wall per case)."
+E3NOTE="Bounded: inputs within <=1 field substitution of the baselines with values from a boundary menu, <=2 substitutions with the full menus (thorough, selected baselines) or with reduced menus {zero, all ones, neighbour} (quick: baselines <=1500 bytes; thorough: all others), plus two structurally defined multi-field sets on every baseline (overrun chains: all box sizes on every suffix of every ancestor path raised together; extreme pairs: every 64-bit number x every 32-bit field at the top of their range); fields are the reads the parser itself performs. No byte-level havoc (that would be sampling). Trusted: harness streams/allocator, the watchdog (10 s wall per case)."
 chk("C06","model_checking",
     "Each baseline (muxer outputs of every kind, canned files incl. fragment-mode, reference-encoded kitchen sinks K1-K6) and each member of the enumerated input-shape families (metadata item x data type x payload length, fragment run-length vectors x flag forms, chunk/size shapes) is opened and fully probed (every accessor, JSON/summary of every box, sample ids 0..count+1 and u32::MAX) under every single substitution of a boundary value into every field the parser reads (and all pairs on selected baselines in the thorough tier), in both an overflow-checked and a wrapping release build, in worker subprocesses so aborts and stack overflows are attributed; no panic/abort on any explored input.",
     E3NOTE,"exhaustive deviation-bounded exploration of inputs (k<=2 field substitutions, dynamic field discovery) on the real reader, two build profiles, process isolation","§3 C06")
